@@ -76,7 +76,7 @@ def main(base_seed):
     for hs in ("0", "4242"):
         code = ("import sys, hashlib, json; sys.path.insert(0, %r); import corpusgen as g; "
                 "s=g.plan_corpus(%d,'quick'); h=hashlib.sha256(); "
-                "[h.update(g.render_module(x['name'],x['repr'],x['variants'],x['attrs'],x['config'],x['tags'])[0].encode()) for x in s]; "
+                "[h.update(g.render_module(x['name'],x['repr'],x['variants'],x['attrs'],x['config'],x['tags'],x.get('ord_reversed',False))[0].encode()) for x in s]; "
                 "print(h.hexdigest())" % (SIM, base_seed))
         p = subprocess.run([sys.executable, "-c", code], env=dict(ENV, PYTHONHASHSEED=hs), stdout=subprocess.PIPE,
                            stderr=subprocess.PIPE, text=True)
